@@ -138,6 +138,60 @@ def py_eval(e, priors, asfloat):
     return {"add": operator.add, "sub": operator.sub, "mul": operator.mul, "div": operator.truediv, "pow": operator.pow}[e[0]](a, b)
 
 
+CANDIDATES = []
+
+
+def numeric_values(e):
+    """exact values of every purely numeric sub-expression of e (and of the constants themselves)"""
+    out = []
+
+    def ev(t):
+        if t[0] == "N":
+            v = Fraction(t[1]); out.append(v); return v
+        if t[0] in ("P", "B"):
+            return None
+        if t[0] == "neg":
+            v = ev(t[1])
+            if v is not None:
+                out.append(-v); return -v
+            return None
+        a, b = ev(t[1]), ev(t[2])
+        # reflected operators evaluate number (op) number in Python arithmetic: add/sub/mul/div exactly on Fractions
+        if a is None or b is None:
+            if t[0] == "div" and b is not None and b != 0:
+                out.append(1 / b)          # p / c is built as p * (1/c)
+            if t[0] == "sub" and b is not None:
+                out.append(-b)
+            return None
+        try:
+            v = {"add": a + b, "sub": a - b, "mul": a * b, "div": (a / b) if b != 0 else None}.get(t[0])
+        except Exception:
+            v = None
+        if v is not None:
+            out.append(v)
+            out.append(-v)
+        return v
+    ev(e)
+    return sorted(set(out), key=lambda q: (q.denominator, abs(q.numerator)))
+
+
+def simplest_between(lo, hi):
+    """the fraction with the smallest denominator in [lo, hi] (Stern-Brocot / continued fractions)"""
+    if lo > hi:
+        lo, hi = hi, lo
+    if lo <= 0 <= hi:
+        return Fraction(0)
+    if hi < 0:
+        return -simplest_between(-hi, -lo)
+    fl_ = lo.numerator // lo.denominator
+    if Fraction(fl_) == lo:
+        return lo if lo.denominator == 1 else Fraction(fl_) if False else lo
+    if fl_ + 1 <= hi:
+        return Fraction(fl_ + 1)
+    rest = simplest_between(1 / (hi - fl_), 1 / (lo - fl_))
+    return fl_ + 1 / rest
+
+
 def show_obj(o, priors):
     for i, p in enumerate(priors):
         if o is p:
@@ -149,10 +203,11 @@ def show_obj(o, priors):
         fr = Fraction(o)
         if isinstance(o, float):
             # Fraction ** prior goes through float(): snap back to the simple rational it came from
-            for den in (1000, 10 ** 13):
-                near = fr.limit_denominator(den)
-                if abs(near - fr) <= 1e-15 * max(1, abs(near)):
-                    fr = near
+            # Fraction ** prior (and Fraction * Fraction inside Python) goes through float(): snap back to the exact rational the
+            # expression's own constants give for that number (computed from the expression, never from the implementation)
+            for cnd in CANDIDATES:
+                if abs(cnd - fr) <= Fraction(1, 10 ** 15) * max(1, abs(cnd)):
+                    fr = cnd
                     break
         return "N" + q2s(fr)
     return "?%r" % (o,)
@@ -241,8 +296,9 @@ def correspondence(ctx):
                 continue
             priors = [Uniform(0, 1), Gaussian(1, 2), Uniform(-2, 5, guess=1)]
 
-            def call():
+            def call(e=e, priors=priors):
                 o = py_eval(e, priors, asfloat=False)
+                CANDIDATES[:] = numeric_values(e)
                 return show_obj(o, priors)
             ctx.corr("prior-arithmetic", "build " + expr_tokens(e), impl_call(call), kind="exact", inputs=dict(expr=expr_tokens(e)))
         else:
